@@ -321,6 +321,10 @@ int main(int argc, char** argv)
             bool drop_sources = !pre_requested && R.chance(1, 8);
 
             int nact = 2 + (int) R.below(2);
+            // race: four actors, every one of them requests stop while callbacks are being registered
+            // and deregistered around it (requesters that find the lock bit taken by a registration)
+            bool race = !drop_sources && R.chance(1, 3);
+            if (race) nact = 4;
             // callbacks: each has one creator; a destroyer (another actor, the creator, a callback
             // body, or the final drain)
             int creator[NCB + 1] = {0}, destroyer[NCB + 1] = {0};
@@ -358,7 +362,7 @@ int main(int argc, char** argv)
                 std::vector<opdesc>& s = scripts[a];
                 for (int c = 1; c <= NCB; ++c)
                     if (creator[c] == a) s.push_back({o_make, 1, 0, c});
-                if (!drop_sources && R.chance(3, 4)) s.push_back({o_request, a <= 3 ? a : 1, 0, 0});
+                if (!drop_sources && (race || R.chance(3, 4))) s.push_back({o_request, a <= 3 ? a : 1, 0, 0});
                 if (drop_sources) s.push_back({o_destroy_src, a <= 3 ? a : 0, 0, 0});
                 for (int c = 1; c <= NCB; ++c)
                     if (destroyer[c] == a) s.push_back({o_destroy_cb, 0, 0, c});
